@@ -63,13 +63,19 @@ func (l Lease) FastLog(line *fastlog.Line) *fastlog.Line {
 	return line
 }
 
+// findByIP returns the lease that records ip as its address. A freed lease that still
+// records ip as its previous address is returned only if no other lease holds it.
 func (h *Handler) findByIP(ip netip.Addr) *Lease {
+	var freed *Lease
 	for _, v := range h.table {
 		if v.Addr.IP == ip {
-			return v
+			if v.State != StateFree {
+				return v
+			}
+			freed = v
 		}
 	}
-	return nil
+	return freed
 }
 
 func (h *Handler) findByMAC(mac net.HardwareAddr) *Lease {
